@@ -1,3 +1,4 @@
+import os
 import sys
 from pathlib import Path
 
@@ -172,6 +173,18 @@ def reformat_files(
         raise ValueError(
             "Cannot specify output file when processing multiple files (use --inplace instead)"
         )
+
+    if inplace:
+        # A file named twice (directly, or through a link) is rewritten once: a second pass
+        # would replace the backup of the original with the already formatted text.
+        seen: set[str] = set()
+        unique_files: list[str] = []
+        for file_path in files:
+            key = os.path.realpath(file_path)
+            if key not in seen:
+                seen.add(key)
+                unique_files.append(file_path)
+        files = unique_files
 
     for file_path in files:
         if inplace:
